@@ -80,14 +80,24 @@ type genCfg struct {
 	stateFile        bool
 	isolate          bool
 	manyAdvertised   bool
+	viaBootstrap     bool // the dialling router reaches the listener through router.bootstrap, not router.connect
+	ipv6             bool // listener and peer URL on the IPv6 loopback
+}
+
+// loopHost is the loopback host of the configuration under test ("127.0.0.1" or "[::1]").
+func (g genCfg) loopHost() string {
+	if g.ipv6 {
+		return "[::1]"
+	}
+	return "127.0.0.1"
 }
 
 func (g genCfg) String() string {
 	if len(g.universe) > 40 {
 		g.universe = fmt.Sprintf("%s...(%d bytes)", g.universe[:12], len(g.universe))
 	}
-	return fmt.Sprintf("universe=%q secret=%v lite=%v stub=%v services=%d friends=%d api=%v statefile=%v isolate=%v",
-		g.universe, g.secret != "", g.lite, g.stub, g.nServices, g.nFriends, g.api, g.stateFile, g.isolate)
+	return fmt.Sprintf("universe=%q secret=%v lite=%v stub=%v services=%d friends=%d api=%v statefile=%v isolate=%v bootstrap=%v ipv6=%v",
+		g.universe, g.secret != "", g.lite, g.stub, g.nServices, g.nFriends, g.api, g.stateFile, g.isolate, g.viaBootstrap, g.ipv6)
 }
 
 func genConfig(r *rand.Rand) genCfg {
@@ -102,6 +112,13 @@ func genConfig(r *rand.Rand) genCfg {
 	g.lite = r.IntN(4) == 0
 	g.stub = r.IntN(4) == 0
 	g.nServices = r.IntN(5)
+	g.viaBootstrap = r.IntN(4) == 0
+	if r.IntN(4) == 0 {
+		if ln, err := net.Listen("tcp", "[::1]:0"); err == nil {
+			ln.Close()
+			g.ipv6 = true
+		}
+	}
 	switch r.IntN(8) {
 	case 0:
 		g.universe = "big-" + strings.Repeat("u", 1300+r.IntN(600)) // a long universe name: handshake frames beyond the small buffers
@@ -134,10 +151,14 @@ func buildStore(r *rand.Rand, g genCfg, id *m.Address, listenPort, apiPort int, 
 		System: config.System{DisableTun: true},
 	}
 	if listenPort > 0 {
-		st.Router.Listen = []string{fmt.Sprintf("tcp://127.0.0.1:%d", listenPort)}
+		st.Router.Listen = []string{fmt.Sprintf("tcp://%s:%d", g.loopHost(), listenPort)}
 	}
 	if connectTo > 0 {
-		st.Router.Connect = []string{fmt.Sprintf("tcp://127.0.0.1:%d", connectTo)}
+		if g.viaBootstrap {
+			st.Router.Bootstrap = []string{fmt.Sprintf("tcp://%s:%d", g.loopHost(), connectTo)}
+		} else {
+			st.Router.Connect = []string{fmt.Sprintf("tcp://%s:%d", g.loopHost(), connectTo)}
+		}
 	}
 	if g.api && apiPort > 0 {
 		st.System.APIListen = fmt.Sprintf("127.0.0.1:%d", apiPort)
@@ -307,7 +328,7 @@ func childRun(args []string) int {
 			if ok := instA.Stop(); !ok {
 				fail("stop-returned-false", "router A: Stop() right after Start() returned false")
 			}
-			if c, err := net.DialTimeout("tcp", fmt.Sprintf("127.0.0.1:%d", portA), 300*time.Millisecond); err == nil {
+			if c, err := net.DialTimeout("tcp", fmt.Sprintf("%s:%d", g.loopHost(), portA), 300*time.Millisecond); err == nil {
 				c.Close()
 				// the listener may come up late: it must still go away
 				time.Sleep(500 * time.Millisecond)
@@ -327,7 +348,7 @@ func childRun(args []string) int {
 				fail("goroutine-left-after-stop:"+sigOf(g), "cycle %d: Stop() right after Start() returned, but a goroutine of the router is still alive 10s later: %s in %s", cycle, first, sigOf(g))
 				break
 			}
-			if c, err := net.DialTimeout("tcp", fmt.Sprintf("127.0.0.1:%d", portA), 300*time.Millisecond); err == nil {
+			if c, err := net.DialTimeout("tcp", fmt.Sprintf("%s:%d", g.loopHost(), portA), 300*time.Millisecond); err == nil {
 				c.Close()
 				fail("listener-open-after-stop", "router A: listener 127.0.0.1:%d accepts connections after Stop() returned (stopped right after Start)", portA)
 			}
@@ -342,7 +363,7 @@ func childRun(args []string) int {
 		deadline := time.Now().Add(20 * time.Second)
 		listening := false
 		for time.Now().Before(deadline) {
-			c, err := net.DialTimeout("tcp", fmt.Sprintf("127.0.0.1:%d", portA), time.Second)
+			c, err := net.DialTimeout("tcp", fmt.Sprintf("%s:%d", g.loopHost(), portA), time.Second)
 			if err == nil {
 				c.Close()
 				listening = true
@@ -500,7 +521,7 @@ func childRun(args []string) int {
 			}
 		}
 		// Listener closed?
-		if c, err := net.DialTimeout("tcp", fmt.Sprintf("127.0.0.1:%d", portA), 300*time.Millisecond); err == nil {
+		if c, err := net.DialTimeout("tcp", fmt.Sprintf("%s:%d", g.loopHost(), portA), 300*time.Millisecond); err == nil {
 			c.Close()
 			fail("listener-open-after-stop", "router A: listener 127.0.0.1:%d still accepts connections after Stop", portA)
 		}
